@@ -133,15 +133,38 @@ class C17Episode(Episode):
             wc = dict(wc)
             st = {}
             for ch in wc.get('channels', ['stdout', 'stderr']):
+                if ch in (wc.get('stream_conf') or {}):
+                    continue        # configured by file name (restream cases)
                 st[ch] = Collector(self, ch)
             wc['streams'] = st
             ws.append(self.world.make_watcher(wc))
         self.world.build(watchers=ws)
         self.world.kernel.on_spawn = self.on_spawn
+        self.file_channels = dict(
+            (wc.get('marker', wc['name']), set(wc.get('stream_conf') or ()))
+            for wc in self.cfg['watchers'])
+        if self.cfg.get('restream'):
+            def on_reply(r, ent):
+                if r.cmd == 'set' and isinstance(ent[5], dict) and \
+                        ent[5].get('status') == 'ok':
+                    pth = os.path.join(self.world.scratch_dir(),
+                                       self.cfg['restream']['old'])
+                    self.old_size_at_set = os.path.getsize(pth) \
+                        if os.path.exists(pth) else 0
+            self.world.reply_hooks.append(on_reply)
         self.base_fds = None
         self.plans = dict((wc.get('marker', wc['name']), wc.get('plans', []))
                           for wc in self.cfg['watchers'])
         self.spawn_no = {}
+
+    def resolve_props(self, op):
+        props = super().resolve_props(op)
+        o = (props or {}).get('options')
+        if isinstance(o, dict):
+            props['options'] = dict(
+                (k, v.replace('@SCRATCH@', self.world.scratch_dir())
+                 if isinstance(v, str) else v) for k, v in o.items())
+        return props
 
     def fd_count(self):
         return len(os.listdir('/proc/self/fd'))
@@ -301,6 +324,8 @@ class C17Episode(Episode):
                 w = st['written'][ch]
                 if not w:
                     continue
+                if ch in self.file_channels.get(p.marker, ()):
+                    continue      # delivered to a file (judge_restream)
                 if ch in st.get('flooded', ()):
                     # a helper kept writing while the daemon closed the
                     # pipe: only order / labelling are judged
@@ -441,9 +466,50 @@ class C17Episode(Episode):
     def at_quiet(self):
         self.check_safety()
 
+    def judge_restream(self):
+        """a stream option changed at run time (set stdout_stream.filename):
+        from then on the channel's output belongs to the newly configured
+        stream - also for the worker generations started later"""
+        rs = self.cfg.get('restream')
+        if not rs:
+            return
+        w = self.world
+        d = w.scratch_dir()
+        sets = [r for r in w.reqs if r.cmd == 'set' and r.replies and
+                isinstance(r.reply, dict) and r.reply.get('status') == 'ok']
+        if not sets:
+            return
+        r = sets[-1]
+        k = w.kernel
+        marker = self.cfg['watchers'][0].get('marker')
+        new_gen = [p for p in k.spawns if p.marker == marker and
+                   p.spawn_seq > r.done_seq]
+        owed = sum(self.writers.get(p.pid, {}).get('written', {}).get(
+            'stdout', 0) for p in new_gen)
+        new_path = os.path.join(d, rs['new'])
+        old_path = os.path.join(d, rs['old'])
+        got_new = os.path.getsize(new_path) if os.path.exists(new_path) else 0
+        got_old = os.path.getsize(old_path) if os.path.exists(old_path) else 0
+        self.probes['restream_checked'] += 1
+        if new_gen and owed:
+            self.probes['restream_new_generation'] += 1
+        if got_old > getattr(self, 'old_size_at_set', got_old):
+            self.viol('output_to_stream_no_longer_configured',
+                      'stdout_stream.filename was changed to %s at run time; '
+                      'the old file grew from %d to %d bytes afterwards'
+                      % (rs['new'], self.old_size_at_set, got_old),
+                      once='restream')
+        elif got_new < owed:
+            self.viol('output_lost',
+                      'workers started after stdout_stream.filename was set '
+                      'to %s wrote %d bytes, the file holds %d'
+                      % (rs['new'], owed, got_new), once='restream2',
+                      writer='new_generation', closer='restream')
+
     def final(self):
         for h in self.helpers.values():
             self.stop_helper(h)
+        self.judge_restream()
         self.check_safety()
         self.check_complete()
         self.check_eof_and_spin()
@@ -570,7 +636,51 @@ class C17(Prop):
         'stub': Prop.components['stub'] + ['the writing worker (the '
                                            'scheduler writes into the pipe)']}
 
+    def gen_restream(self, rng, tier, seed):
+        """the stream of a channel is re-configured at run time, then the
+        watcher is restarted / reloaded / stopped and started"""
+        cfg = gen.gen_base_cfg(rng, seed, nwatch=(1,), numproc=(1, 2, 3),
+                               singleton_p=0.0, kinds=('obedient',),
+                               grace=[0.05, 0.25], warmup=[0, 0.05])
+        cfg['buffer'] = rng.choice([1024, 4096])
+        cfg['max_steps'] = 300000
+        cfg['check_delay'] = rng.choice([0.3, 1.0])
+        cfg['restream'] = {'old': 'out1.log', 'new': 'out2.log'}
+        wc = cfg['watchers'][0]
+        wc['plans'] = [{'writes': [[rng.choice([0.0, 0.05, 0.2]), 'stdout',
+                                    rng.choice([7, 100, 1025, 5000])]
+                                   for _ in range(rng.choice([1, 2, 4]))]}]
+        wc['channels'] = ['stdout', 'stderr']
+        wc['stream_conf'] = {'stdout': {'filename': '@SCRATCH@/out1.log'}}
+        ops = [{'op': 'wait', 'kind': 'time', 'n': rng.choice([0.1, 0.6])},
+               {'op': 'req', 'cmd': 'set', 'w': 0, 'waiting': True,
+                'props': {'options': {'stdout_stream.filename':
+                                      '@SCRATCH@/out2.log'}},
+                'place': 'now', 'sync': True},
+               {'op': 'wait', 'kind': 'time', 'n': rng.choice([0.0, 0.3])}]
+        nxt = rng.choice(['restart', 'reload_hard', 'stopstart', 'incr'])
+        if nxt == 'restart':
+            ops.append({'op': 'req', 'cmd': 'restart', 'w': 0, 'props': {},
+                        'waiting': True, 'place': 'now', 'sync': True})
+        elif nxt == 'reload_hard':
+            ops.append({'op': 'req', 'cmd': 'reload', 'w': 0,
+                        'props': {'graceful': False}, 'waiting': True,
+                        'place': 'now', 'sync': True})
+        elif nxt == 'stopstart':
+            ops.append({'op': 'req', 'cmd': 'stop', 'w': 0, 'props': {},
+                        'waiting': True, 'place': 'now', 'sync': True})
+            ops.append({'op': 'req', 'cmd': 'start', 'w': 0, 'props': {},
+                        'waiting': True, 'place': 'now', 'sync': True})
+        else:
+            ops.append({'op': 'req', 'cmd': 'incr', 'w': 0,
+                        'props': {'nb': 2}, 'waiting': True, 'place': 'now',
+                        'sync': True})
+        ops.append({'op': 'wait', 'kind': 'time', 'n': 1.5})
+        return {'cfg': cfg, 'ops': ops}
+
     def gen(self, rng, tier, seed):
+        if rng.random() < 0.06:
+            return self.gen_restream(rng, tier, seed)
         cfg = gen.gen_base_cfg(rng, seed, nwatch=(1, 1, 2),
                                numproc=(1, 2, 2, 3, 4), singleton_p=0.0,
                                kinds=('obedient',), grace=[0.05, 0.25],
